@@ -48,6 +48,16 @@ type CaseResult struct {
 	Violations   []Violation      `json:"viol,omitempty"`
 	Inconclusive string           `json:"inc,omitempty"`
 	Sample       any              `json:"sample,omitempty"`
+	// a case that bundles many executions reports how many (default 1) and, optionally, one
+	// canonical key per non-trivial execution (hashed for the distinct count) instead of Key
+	Evals int64    `json:"evals,omitempty"`
+	Keys  []string `json:"keys,omitempty"`
+}
+
+// AddKey records the canonical form of one non-trivial execution of a bundled case.
+func (r *CaseResult) AddKey(k string) {
+	h := sha256.Sum256([]byte(k))
+	r.Keys = append(r.Keys, hex.EncodeToString(h[:10]))
 }
 
 // AddObs adds n to counter k.
@@ -641,10 +651,17 @@ func merge(tot *Totals, o *batchOutcome) {
 		if r == nil {
 			continue
 		}
-		tot.Evaluations++
-		if r.Nontrivial && r.Key != "" {
+		if r.Evals > 0 {
+			tot.Evaluations += r.Evals
+		} else {
+			tot.Evaluations++
+		}
+		if r.Nontrivial && r.Key != "" && len(r.Keys) == 0 {
 			h := sha256.Sum256([]byte(r.Key))
 			tot.Distinct[hex.EncodeToString(h[:12])] = struct{}{}
+		}
+		for _, k := range r.Keys {
+			tot.Distinct[k] = struct{}{}
 		}
 		for k, v := range r.Obs {
 			tot.Obs[k] += v
